@@ -190,6 +190,12 @@ def cond_places(c):
     elif k == "optval":
         for p in val_places(c[1]):
             yield p
+    elif k == "guarded":
+        for lst in c[1:]:
+            for (a, b, d) in lst:
+                for x in (a, b):
+                    for p in val_places(x):
+                        yield p
     elif k == "conj":
         for lst in c[1:]:
             for (a, b, d) in lst:
@@ -201,6 +207,43 @@ def cond_places(c):
             if x is not None:
                 for p in val_places(x):
                     yield p
+
+
+def _bool_const(v):
+    if v is not None and v[0] == "n" and v[1] is None and v[2] in (0, 1):
+        return v[2]
+    return None
+
+
+def _diff_facts(side, joined, skip_place, limit=40):
+    """constraints (a, b, c) [a - b <= c] that hold in `side` but are weaker/absent in `joined`"""
+    out = []
+    for t, iv in side.iv.items():
+        if term_place(t) == skip_place:
+            continue
+        j = joined.iv.get(t, FULL)
+        if iv[1] is not None and (j[1] is None or iv[1] < j[1]):
+            out.append((("n", t, 0), ("n", None, iv[1]), 0))
+        if iv[0] is not None and (j[0] is None or iv[0] > j[0]):
+            out.append((("n", None, iv[0]), ("n", t, 0), 0))
+        if len(out) >= limit:
+            return out
+    for (x, y), c in side.rel.items():
+        j = joined.rel.get((x, y))
+        if j is None or c < j:
+            out.append((("n", x, 0), ("n", y, 0), c))
+            if len(out) >= limit:
+                return out
+    for p, v in side.sym.items():
+        if p == skip_place or joined.sym.get(p) == v:
+            continue
+        if v[0] == "n" and not p[1]:
+            me = ("n", ("v", p[0], p[1]), 0)
+            out.append((me, v, 0))
+            out.append((v, me, 0))
+            if len(out) >= limit:
+                return out
+    return out
 
 
 class State:
@@ -561,6 +604,33 @@ class State:
                     cb = other._bound_with_alias(x, y, p, vb)
                     if ca is not None and cb is not None:
                         s.rel[(x, y)] = min(s.rel.get((x, y), max(ca, cb)), max(ca, cb))
+        # boolean flag correlation: a local that is the constant true on one side and false on the other remembers
+        # the facts that distinguish the two sides ("is_short == true  =>  ch <= 255 ...")
+        for p in set(self.sym) | set(other.sym):
+            if p[1]:
+                continue
+            a, b = self.sym.get(p), other.sym.get(p)
+            va, vb = _bool_const(a), _bool_const(b)
+            ga = a[1] if (a is not None and a[0] == "b" and a[1][0] == "guarded") else None
+            gb = b[1] if (b is not None and b[0] == "b" and b[1][0] == "guarded") else None
+            if ga is not None and gb is not None:
+                s.sym[p] = ("b", ("guarded", tuple(x for x in ga[1] if x in gb[1]), tuple(x for x in ga[2] if x in gb[2])))
+                continue
+            if (ga is not None and vb is not None) or (gb is not None and va is not None):
+                gg, vv, side = (ga, vb, other) if ga is not None else (gb, va, self)
+                extra = _diff_facts(side, s, p)
+                if vv == 0:
+                    s.sym[p] = ("b", ("guarded", gg[1], tuple(x for x in gg[2] if x in extra)))
+                else:
+                    s.sym[p] = ("b", ("guarded", tuple(x for x in gg[1] if x in extra), gg[2]))
+                continue
+            if va is None or vb is None or va == vb:
+                continue
+            fa, fb = _diff_facts(self, s, p), _diff_facts(other, s, p)
+            if va == 1:
+                s.sym[p] = ("b", ("guarded", tuple(fa), tuple(fb)))
+            else:
+                s.sym[p] = ("b", ("guarded", tuple(fb), tuple(fa)))
         return s
 
     def _bound_with_alias(self, x, y, p, alias):
